@@ -214,6 +214,7 @@ impl Model for Node {
         // a value no generated message can carry (children end in a digit 1..9, roots are below 9000)
         let p = 9000 + 10 * self.id as u128;
         self.run_script(true, p).await;
+        self.sh.log.lock().unwrap().push(Rec::Done(self.id, p));
         self.leave();
         self.into()
     }
@@ -707,6 +708,13 @@ fn causal_violation(specs: &[ModelSpec], recs: &[Rec]) -> Option<String> {
         }
         out
     };
+    // what each handler invocation sent, line by line
+    let mut sent_by: HashMap<(usize, u128), Vec<(usize, u128)>> = HashMap::new();
+    for r in recs {
+        if let Rec::Sent(m, hp, k, child, _) = r {
+            sent_by.entry((*m, *hp)).or_default().push((*k, *child));
+        }
+    }
     for (b, seq) in &order {
         let mut count: HashMap<u128, usize> = HashMap::new();
         for p in seq {
@@ -717,6 +725,36 @@ fn causal_violation(specs: &[ModelSpec], recs: &[Rec]) -> Option<String> {
                 continue; // the same payload reached this model through two connections: lineage is ambiguous
             }
             let cy = chain(*b, *y);
+            // a message that an invocation on y's ancestor chain sent to this model with an *earlier* script line (that
+            // send had completed when the later line started) must have been processed before y — in particular it must
+            // have been processed at all
+            for a in &cy {
+                let script = if a.1 == 9000 + 10 * a.0 as u128 { &specs[a.0].initops } else { &specs[a.0].react };
+                for (k, child) in sent_by.get(&(a.0, a.1)).map(|v| v.as_slice()).unwrap_or(&[]) {
+                    if *k >= a.2 {
+                        continue;
+                    }
+                    let conns = match script.get(*k).and_then(|op| specs[a.0].ports.get(&op.port)) {
+                        Some(c) => c,
+                        None => continue,
+                    };
+                    for c in conns {
+                        if c.to_sink || c.dst != *b || !(c.fmod == 0 || child % c.fmod == c.fres) {
+                            continue;
+                        }
+                        let x = child + c.add;
+                        if x == *y || count.get(&x).copied().unwrap_or(0) > 1 {
+                            continue;
+                        }
+                        if !seq[..iy].contains(&x) && !seq.contains(&x) {
+                            return Some(format!(
+                                "model {b} processed message {y} although message {x}, whose sending to model {b} completed before {y} was sent (line {k} of the invocation {}:{} that later led to {y}), was never processed",
+                                a.0, a.1
+                            ));
+                        }
+                    }
+                }
+            }
             for x in seq.iter().skip(iy + 1) {
                 // x was processed AFTER y; violation if x happens-before y
                 if x == y || count[x] > 1 {
@@ -1128,6 +1166,21 @@ impl Engine for Net {
             if w[0] != "init" && recs.iter().any(|r| matches!(r, Rec::Init(_))) {
                 out.monitor.push(("C16".into(), format!("a model's init ran during `{l}`, not during SimInit::init")));
             }
+            if w[0] == "init" && r.starts_with("ok") {
+                // SimInit::init returned Ok: every init that started has run to its end
+                for x in &recs {
+                    if let Rec::Init(m) = x {
+                        let p = 9000 + 10 * *m as u128;
+                        if !recs.iter().any(|y| matches!(y, Rec::Done(m2, p2) if m2 == m && *p2 == p)) {
+                            out.monitor.push((
+                                "C16".into(),
+                                format!("SimInit::init returned Ok but the init of model {} is still suspended half-way (it never completes: the messages it has yet to send are never delivered)", qname(&specs, *m)),
+                            ));
+                            break;
+                        }
+                    }
+                }
+            }
             all_recs.extend(recs);
             out.resp.push(r);
         }
@@ -1287,6 +1340,63 @@ fn gen_case(rng: &mut Rng, _idx: usize, tier: Tier, focus: &str) -> Case {
                 ),
             ],
         };
+    }
+    if (focus == "C02" && rng.chance(1, 4)) || ((focus == "C03" || focus == "C12") && rng.chance(1, 12)) || rng.chance(1, 60) {
+        // a sender suspended on a full mailbox inside a broadcast, woken while the mailbox is full again, and a causally
+        // later message that reaches the same mailbox through a relay
+        const BIG: u64 = 999_999_999_999_999_989;
+        let exec = match rng.below(4) {
+            0 | 1 => "st".to_string(),
+            2 => "mt2".into(),
+            _ => "mt4".into(),
+        };
+        let cap = rng.range(1, 2);
+        let mut l = vec![format!("case net exec {exec}")];
+        // 0 = source, 1 = relay, 2 = bystander, 3 = receiver (small mailbox), 4 = competitor, 5 = helper
+        for (i, nm) in ["a", "b", "c", "d", "e", "f"].iter().enumerate() {
+            l.push(format!("model {i} cap {} sim 1 parent - name {nm}", if i == 3 { cap } else { rng.range(2, 4) }));
+        }
+        l.push("conn 0 0 ev box 3 add 0 fmod 0 fres 0".into());
+        let mut bc = vec!["conn 0 1 ev box 2 add 0 fmod 0 fres 0".to_string(), "conn 0 1 ev box 3 add 0 fmod 0 fres 0".to_string()];
+        if rng.chance(1, 2) {
+            bc.swap(0, 1);
+        }
+        if rng.chance(1, 3) {
+            bc.push("conn 0 1 ev box 5 add 0 fmod 0 fres 0".into());
+        }
+        l.extend(bc);
+        l.push("conn 0 2 ev box 1 add 0 fmod 0 fres 0".into());
+        l.push("conn 0 3 ev box 5 add 0 fmod 0 fres 0".into());
+        l.push("conn 1 0 ev box 3 add 0 fmod 0 fres 0".into());
+        l.push("conn 4 0 ev box 3 add 0 fmod 0 fres 0".into());
+        l.push("conn 3 6 q box 5 add 0 fmod 0 fres 0".into());
+        l.push("conn 3 7 ev box 4 add 0 fmod 0 fres 0".into());
+        // the source: a message to the helper (which is thereby scheduled early), fill the receiver's mailbox, broadcast
+        // (suspends on the receiver), then the relay
+        l.push("react 0 ev 3 cmod 0 cres 0".into());
+        for _ in 0..cap {
+            l.push("react 0 ev 0 cmod 0 cres 0".into());
+        }
+        l.push("react 0 ev 1 cmod 0 cres 0".into());
+        l.push("react 0 ev 2 cmod 0 cres 0".into());
+        l.push("react 1 ev 0 cmod 0 cres 0".into());
+        l.push("react 4 ev 0 cmod 0 cres 0".into());
+        let root = rng.range(1, 9);
+        let first = root * 100 + 2;
+        // while it handles the first filler the receiver wakes the competitor (which takes the freed slot) and then waits
+        // for the helper; it never waits for the competitor, so no schedule can deadlock
+        if rng.chance(5, 6) {
+            l.push(format!("react 3 ev 7 cmod {BIG} cres {first}"));
+        }
+        if rng.chance(5, 6) {
+            l.push(format!("react 3 q 6 cmod {BIG} cres {first}"));
+        }
+        l.push("init".into());
+        l.push(format!("ev 0 {root}"));
+        if rng.chance(1, 2) {
+            l.push(format!("ev 3 {}", 50 + rng.below(9)));
+        }
+        return Case { lines: l };
     }
     let exec = match if focus == "C19" { 1 + rng.below(4) } else { rng.below(5) } {
         0 | 1 => "st".to_string(),
